@@ -16,7 +16,8 @@ Sleeps are recorded by replacing the package-level ``Reduino.Actuators.sleep`` (
 tests/test_actuators.py monkeypatches; DCMotor._sleep looks it up at call time).  With
 "real_sleep" the recorder then calls the REAL Reduino.Utils.sleep with a sleep_func that
 hands non-finite durations to the real time.sleep (CPython raises at once: ValueError for
-NaN, OverflowError for inf) and skips the wait for finite ones.  Level events (DESIGN.md
+NaN, OverflowError for inf) and skips the wait for finite ones; a sleep event is recorded only
+when that call returned.  Level events (DESIGN.md
 A.2) are recorded by wrapping the given methods in this process only; an event is
 appended when the wrapped call completes.  "get" holds what the public getters return.
 """
@@ -76,9 +77,9 @@ def _no_wait(seconds):
 
 
 def fake_sleep(duration, *, sleep_func=None):
-    EVENTS.append(["sleep", enc(duration)])
     if MODE["real_sleep"]:
-        REAL_SLEEP(duration, sleep_func=_no_wait)
+        REAL_SLEEP(duration, sleep_func=_no_wait)       # may raise: then no sleep happened
+    EVENTS.append(["sleep", enc(duration)])
 
 
 A.sleep = fake_sleep
